@@ -24,6 +24,25 @@ CLAIMED = {
   "tools/gen_constants.py. Modelled, not verified: pinocchio's borrow-state bit layout (abstracted to a flag and a "
   "counter), container byte-level behaviour (that is C01/C02), heap address >= account size. Found and fixed D3 "
   "(wrapper.rs sign of resize_delta)."),
+ "C08": (
+  "Coq theorems (coq/Properties/C08.v, axiom-free): validate_account_info accepts iff owner = program id and the first "
+  "w data bytes equal the discriminant, for all owners, data, widths and discriminants (the width-specialised integer "
+  "compares are proved equal to byte equality via injectivity of little-endian decoding); every rejection is an owner / "
+  "size / discriminant error, never a panic; data() on writable accounts and data_mut() re-validate; data_mut() on "
+  "read-only accounts is refused; an account closed by the framework no longer validates unless its discriminant is the "
+  "closed marker. Tie: exhaustive finite product (six widths x owner bit flips x prefix deviations x flags x borrow "
+  "states x closed) run through the extracted model and six real programs on native accounts.",
+  "Trusted: Coq kernel, extraction + driver, harness (one program per width). Modelled: pinocchio can_borrow_data as a "
+  "flag realised by real outstanding borrows; the typed view is List<u8> behind the discriminant."),
+ "C09": (
+  "Coq theorems (coq/Properties/C09.v, axiom-free): the fast 32-byte comparison (four little-endian u64 words) is byte "
+  "equality for all key pairs; each modifier's check holds iff the account has the described flag / key / owner; a "
+  "nesting accepts iff every layer accepts and reports the innermost failing layer's error; optional accounts absent / "
+  "placeholder / present. Tie: 31 Rust nestings (depth <= 4, plain and Option) x all flags x every one-bit and one-byte "
+  "key and owner perturbation, exhaustively (36k cases), against the extracted model.",
+  "Honest level: proof for the comparison lemma, the per-layer iff and the composition rule over the layer algebra; that "
+  "each Rust modifier IS the layer the model says is established by exhaustive correspondence over the finite "
+  "perturbation domain on the 31-type family (the inductive universe of nestings is represented by that family)."),
 }
 REASON = "not claimed yet: model and correspondence check under construction (design in DESIGN.md section 5)"
 NA = {}
